@@ -65,10 +65,15 @@ theorem filter_spec {self : Ops} (hs : SelfOk self) (cs : List Con) (wf : ∀ c 
 
 /-! ### invariant -/
 
-structure CLInv (U : List Con) (s : St) : Prop where
+structure CLInv (G : List Con → List Nat → List Nat → Prop) (U : List Con) (s : St) : Prop where
   core : CoreInv s
   /-- the constraints held mean what the user's constraints mean -/
   equiv : ∀ a, holdsAll s.fe.constraints a = holdsAll U a
+  /-- any property of the fields the queries do not write (constraints, `_constraint_hashes`,
+  `constraints_wo_annotations`) is carried along; the deduplication invariant is passed here -/
+  ghost : G s.fe.constraints s.fe.hashes s.fe.woAnnot
+
+variable {G : List Con → List Nat → List Nat → Prop}
 
 theorem holdsAll_append (A B : List Con) (a : Asg) : holdsAll (A ++ B) a = (holdsAll A a && holdsAll B a) := by
   simp [holdsAll, List.all_append]
@@ -98,13 +103,14 @@ theorem coreInv_after_query {s s1 s2 : St} {r : Nat} (h : CoreInv s) (hg : GotSo
   · rw [hst.reuse, hg.reuse]; exact h.noReuse
   · rw [hfe, hfe1]; exact h.untracked
 
-theorem clInv_after_query {U : List Con} {s s1 s2 : St} {r : Nat} (h : CLInv U s) (hg : GotSolver s s1 r)
-    (hst : L1Step r (fun fe => fe = s1.fe) s1 s2) (hfr : (objAt s2 r).frames = (objAt s1 r).frames) : CLInv U s2 := by
+theorem clInv_after_query {U : List Con} {s s1 s2 : St} {r : Nat} (h : CLInv G U s) (hg : GotSolver s s1 r)
+    (hst : L1Step r (fun fe => fe = s1.fe) s1 s2) (hfr : (objAt s2 r).frames = (objAt s1 r).frames) : CLInv G U s2 := by
   obtain ⟨hc, hcons⟩ := coreInv_after_query h.core hg hst hfr
-  exact ⟨hc, fun a => by rw [hcons]; exact h.equiv a⟩
+  have hfe : s2.fe = { s.fe with solver := some r, toAdd := [] } := (hst.fe rfl).trans hg.fe
+  exact ⟨hc, fun a => by rw [hcons]; exact h.equiv a, by rw [hfe]; exact h.ghost⟩
 
 /-- what the Z3 object asserts together with converted extra constraints, in terms of the user's constraints -/
-theorem satBy_query {U : List Con} {s s1 : St} {r : Nat} (h : CLInv U s) (hg : GotSolver s s1 r) (ec : List Con) (a : Asg) :
+theorem satBy_query {U : List Con} {s s1 : St} {r : Nat} (h : CLInv G U s) (hg : GotSolver s s1 r) (ec : List Con) (a : Asg) :
     SatBy ((objAt s1 r).asserted ++ ec.map ZCon.ofCon) a ↔ Models (U ++ ec) a := by
   rw [SatBy.append, hg.asserted a, satBy_ofCon, models_append, models_iff_holdsAll, models_iff_holdsAll, h.equiv a]
 
@@ -118,11 +124,11 @@ def clSat (E : Env) (self : Ops) (extra : List Con) : M Bool :=
 
 theorem clStage_satisfiable (E : Env) (k : Nat) : (clStage E (k + 1)).satisfiable = clSat E (clStage E k) := rfl
 
-theorem clSat_spec {E : Env} (hE : OracleExact E) {self : Ops} (hs : SelfOk self) (U : List Con) (s : St) (h : CLInv U s)
+theorem clSat_spec {E : Env} (hE : OracleExact E) {self : Ops} (hs : SelfOk self) (U : List Con) (s : St) (h : CLInv G U s)
     (extra : List Con) (wf : ∀ c ∈ extra, ConWf c) :
     match clSat E self extra s with
-    | (.ok b, s') => (b = true ↔ Satisfiable (U ++ extra)) ∧ CLInv U s'
-    | (.error e, s') => IsGiveUp E e ∧ CLInv U s' := by
+    | (.ok b, s') => (b = true ↔ Satisfiable (U ++ extra)) ∧ CLInv G U s'
+    | (.error e, s') => IsGiveUp E e ∧ CLInv G U s' := by
   unfold clSat
   have hmh : self.modelHook = fun _ => pure () := by obtain ⟨_, _, h3⟩ := hs; exact h3
   rw [hmh]
@@ -211,11 +217,11 @@ def EvalOk (cs : List Con) (e : Exp) (n : Nat) (vs : List Nat) : Prop :=
 backend gave up -/
 def ErrOk (E : Env) (cs : List Con) (err : Err) : Prop := err = .unsat ∧ ¬ Satisfiable cs ∨ IsGiveUp E err
 
-theorem clEval_spec {E : Env} (hE : OracleExact E) {self : Ops} (hs : SelfOk self) (U : List Con) (s : St) (h : CLInv U s)
+theorem clEval_spec {E : Env} (hE : OracleExact E) {self : Ops} (hs : SelfOk self) (U : List Con) (s : St) (h : CLInv G U s)
     (e : Exp) (n : Nat) (hn : 1 ≤ n) (extra : List Con) (wf : ∀ c ∈ extra, ConWf c) :
     match clEval E self e n extra s with
-    | (.ok vs, s') => EvalOk (U ++ extra) e n vs ∧ CLInv U s'
-    | (.error err, s') => ErrOk E (U ++ extra) err ∧ CLInv U s' := by
+    | (.ok vs, s') => EvalOk (U ++ extra) e n vs ∧ CLInv G U s'
+    | (.error err, s') => ErrOk E (U ++ extra) err ∧ CLInv G U s' := by
   obtain ⟨hcc, hcv, hmh⟩ := hs
   unfold clEval
   rw [hcv e, hmh]
@@ -308,13 +314,13 @@ def clSolution (E : Env) (self : Ops) (e : Exp) (v : Nat) (extra : List Con) : M
 
 theorem clStage_solution (E : Env) (k : Nat) : (clStage E (k + 1)).solution = clSolution E (clStage E k) := rfl
 
-theorem clSolution_spec {E : Env} (hE : OracleExact E) {self : Ops} (hs : SelfOk self) (U : List Con) (s : St) (h : CLInv U s)
+theorem clSolution_spec {E : Env} (hE : OracleExact E) {self : Ops} (hs : SelfOk self) (U : List Con) (s : St) (h : CLInv G U s)
     (e : Exp) (v : Nat) (hv : v < 2 ^ e.bits) (extra : List Con) (wf : ∀ c ∈ extra, ConWf c) :
     match clSolution E self e v extra s with
     | (.ok b, s') => (match e.conc with
                       | some c => b = (c == v)
-                      | none => (b = true ↔ Feasible (U ++ extra) e v)) ∧ CLInv U s'
-    | (.error err, s') => ErrOk E (U ++ extra) err ∧ CLInv U s' := by
+                      | none => (b = true ↔ Feasible (U ++ extra) e v)) ∧ CLInv G U s'
+    | (.error err, s') => ErrOk E (U ++ extra) err ∧ CLInv G U s' := by
   obtain ⟨hcc, hcv, hmh⟩ := hs
   unfold clSolution
   rw [hcv e, hmh]
@@ -368,8 +374,8 @@ theorem clSolution_spec {E : Env} (hE : OracleExact E) {self : Ops} (hs : SelfOk
           · rintro ⟨a, ha, hva⟩; exact ⟨a, (hq a).mpr ⟨ha, hva⟩⟩
 
 /-- after `_get_solver` alone (and a bump of the event counter) the invariant holds -/
-theorem clInv_after_getSolver {U : List Con} {s s1 : St} {r : Nat} (h : CLInv U s) (hg : GotSolver s s1 r) (t : Nat) :
-    CLInv U { s1 with tick := t } := by
+theorem clInv_after_getSolver {U : List Con} {s s1 : St} {r : Nat} (h : CLInv G U s) (hg : GotSolver s s1 r) (t : Nat) :
+    CLInv G U { s1 with tick := t } := by
   have h2 : L1Step r (fun fe => fe = s1.fe) s1 { s1 with tick := t } := ⟨⟨rfl, fun _ _ => rfl, rfl, rfl⟩, fun hh => hh⟩
   exact clInv_after_query h hg h2 rfl
 
@@ -393,11 +399,11 @@ theorem clStage_isFalse (E : Env) (k : Nat) : (clStage E (k + 1)).isFalse = clTr
   simp only [clStage, stage, compose, mro, layerOf, List.foldr, concreteHandlerLayer, clTruth]
   rfl
 
-theorem clTruth_spec {E : Env} (hT : CheapSound E) {self : Ops} (hs : SelfOk self) (U : List Con) (s : St) (h : CLInv U s)
+theorem clTruth_spec {E : Env} (hT : CheapSound E) {self : Ops} (hs : SelfOk self) (U : List Con) (s : St) (h : CLInv G U s)
     (isTrue : Bool) (c : Con) (hc : ConWf c) (extra : List Con) (wf : ∀ c ∈ extra, ConWf c) :
     match clTruth E self isTrue c extra s with
-    | (.ok b, s') => (b = true → ∀ a, Models (U ++ extra) a → c.sem a = isTrue) ∧ CLInv U s'
-    | (.error err, s') => ErrOk E (U ++ extra) err ∧ CLInv U s' := by
+    | (.ok b, s') => (b = true → ∀ a, Models (U ++ extra) a → c.sem a = isTrue) ∧ CLInv G U s'
+    | (.error err, s') => ErrOk E (U ++ extra) err ∧ CLInv G U s' := by
   obtain ⟨hcc, hcv, hmh⟩ := hs
   unfold clTruth
   rw [hcc c]
